@@ -234,9 +234,62 @@ class Crate:
         return [b for b in self.all_bodies if b.def_kind == 'Closure' and b.j.get('closure_parent') == parent_path]
 
 
-def load(dirpath, crate):
+# Public items and the (private) module the rules expect them in.  The module names are private: when a maintainer renames
+# or re-nests a private module and keeps the public re-exports, the definition paths change although nothing a user can see
+# does.  The facts are then renamed back to these canonical module paths before any rule looks at them.
+CANONICAL_MODULES = {
+    'cadence': [
+        ('cadence::sinks::queuing', ('QueuingMetricSink', 'QueuingMetricSinkBuilder')),
+        ('cadence::sinks::udp', ('UdpMetricSink', 'BufferedUdpMetricSink')),
+        ('cadence::sinks::unix', ('UnixMetricSink', 'BufferedUnixMetricSink')),
+        ('cadence::sinks::spy', ('SpyMetricSink', 'BufferedSpyMetricSink')),
+        ('cadence::sinks::core', ('SinkStats', 'NopMetricSink')),
+        ('cadence::io', ('MultiLineWriter',)),
+        ('cadence::builder', ('MetricBuilder',)),
+        ('cadence::client', ('StatsdClient', 'StatsdClientBuilder')),
+        ('cadence::types', ('MetricError', 'Counter', 'Timer')),
+    ],
+    'cadence_macros': [
+        ('cadence_macros::state', ('SingletonHolder',)),
+    ],
+}
+
+
+def _canonical_renames(j):
+    out = []
+    adts = [a['path'] for a in j.get('adts', []) if a.get('reachable', True)]
+    for canon, names in CANONICAL_MODULES.get(j.get('crate'), []):
+        for nm in names:
+            if canon + '::' + nm in adts:
+                break
+        else:
+            mods = set()
+            for nm in names:
+                hits = [a for a in adts if a.rsplit('::', 1)[-1] == nm]
+                if len(hits) == 1:
+                    mods.add(hits[0].rsplit('::', 1)[0])
+            if len(mods) == 1:
+                actual = mods.pop()
+                if actual != canon:
+                    out.append((actual, canon))
+    return out
+
+
+def load(dirpath, crate, extra_renames=()):
+    """extra_renames: module renames found in the crates this one depends on (their paths occur in this crate's facts)"""
     p = os.path.join(dirpath, crate + '.json')
     if not os.path.exists(p):
         raise Broken('fact file missing: %s' % p)
     with open(p) as f:
-        return Crate(json.load(f))
+        text = f.read()
+    j = json.loads(text)
+    own = _canonical_renames(j)
+    ren = list(own) + [r for r in extra_renames if r not in own]
+    if ren:
+        # longest actual path first; only whole path segments are replaced
+        import re as _re
+        for actual, canon in sorted(ren, key=lambda x: -len(x[0])):
+            text = _re.sub(r'(?<![A-Za-z0-9_])' + _re.escape(actual) + r'(?=::)', canon, text)
+        j = json.loads(text)
+    j['module_renames'] = ren
+    return Crate(j)
